@@ -128,7 +128,7 @@ func c16KeyLength(c *Ctx, ix *Index) {
 	c.Check(maxLen*8 <= 65535, rule, "storage/mkvs/node.MaxKeyLength:fits Depth", "", "MaxKeyLength*8 fits the 16-bit depth type", "MaxKeyLength*8 does not fit the 16-bit depth type")
 	if fn := c.needFn(rule, "storage/mkvs.(*tree).Insert"); fn != nil {
 		do := CallsTo(fn, "doInsert", "storage/mkvs.(*tree).doInsert", "")
-		c.GuardedByAny(rule, fn, "len(key) <= MaxKeyLength", []string{`^builtin\.len\(param:key\) <= ` + itoa(int(maxLen)) + `$`}, do, "a key that is too long for the depth type is rejected before the tree is touched: keys arrive unbounded in write logs from storage peers, and a wrapped bit length indexes out of range in doInsert")
+		c.GuardedByAny(rule, fn, "len(key) <= MaxKeyLength", []string{`^builtin\.len\(`+keyOrNormalised+`\) <= ` + itoa(int(maxLen)) + `$`}, do, "a key that is too long for the depth type is rejected before the tree is touched: keys arrive unbounded in write logs from storage peers, and a wrapped bit length indexes out of range in doInsert")
 	}
 	c.WhoMayCall(ix, rule, "storage/mkvs.(*tree).doInsert", []string{"storage/mkvs.(*tree).Insert", "storage/mkvs.(*tree).doInsert"}, "insertions enter the tree only through Insert, which bounds the key length")
 }
@@ -163,3 +163,7 @@ func wireIntIn(v ssa.Value, d int) ssa.Value {
 	}
 	return nil
 }
+
+// keyOrNormalised matches the key parameter itself or the key after the nil→empty normalisation at the head of the
+// mutators (a phi of the parameter and an empty slice): the length test bounds the value that is passed on either way.
+const keyOrNormalised = `(param:key|phi\([^()]*param:key[^()]*\))`
